@@ -554,9 +554,22 @@ def assemble_fragment(text, fname, repo, stats, srcs):
         sm = difflib.SequenceMatcher(None, at, bt, autojunk=False)
         opcodes = widen_over_rewrites(sm.get_opcodes(), a, at, report, it)
         opcodes = retarget_closing_braces(opcodes, at)
-        for op, i1, i2, j1, j2 in opcodes:
+        # MOVED BLOCKS: a run of tokens the repository deleted in one place and inserted unchanged in another (the branches of an
+        # `if` exchanged, a statement moved) is relocated as fragment TEXT, so that the spec text spliced inside it moves along
+        opcodes, links = split_moves(opcodes, at, bt, a)
+        moved_text = {}
+        used = set()
+        for xi, xd in links.items():
+            _, i1d, i2d, _, _ = opcodes[xd]
+            lo = min(t.start for t in a[i1d:i2d]); hi = max((t.trail if (t.trail is not None and t.trail > t.end) else t.end) for t in a[i1d:i2d])
+            moved_text[xi] = text[lo:hi]
+            edits.append((lo, hi, " "))
+            used.add(xd)
+            report.append((it, "moved", " ".join(at[i1d:i2d])[:160], "(same tokens, new place)"))
+        for xo, (op, i1, i2, j1, j2) in enumerate(opcodes):
             if op == "equal": continue
-            new = " ".join(render_src(b[j1:j2]))
+            if xo in used: continue            # the source of a move: already cut as one span
+            new = moved_text[xo] if xo in moved_text else " ".join(render_src(b[j1:j2]))
             if op == "delete":
                 # a deletion is only determined up to rotation (`X Y X` minus `Y X` == minus `X Y`): prefer the placement
                 # that does not cut through a rewritten region
@@ -611,9 +624,150 @@ def assemble_fragment(text, fname, repo, stats, srcs):
                                         "trusted code changed, re-examine the assumption" % (name, os.path.basename(fname)))
     # apply edits back to front
     out = text
-    for (s, e, r) in sorted(edits, key=lambda x: (x[0], x[1]), reverse=True):
+    # (several insertions at one position keep the order in which they were recorded)
+    for (_q, (s, e, r)) in sorted(enumerate(edits), key=lambda x: (x[1][0], x[1][1], x[0]), reverse=True):
         out = out[:s] + r + out[e:]
+    if edits:
+        out = drop_orphaned_loop_specs(out, report, items)
+        out = rehome_tail_proofs(out, report, items)
     return out, items, report
+
+def rehome_tail_proofs(out, report, items):
+    """When the repository moved statements so that a spliced `proof { .. }` block now follows the block's TAIL EXPRESSION
+    (`.. ; EXPR /*+*/proof {..}/*-*/ }` - a syntax error), bind the tail first: `let __tail = EXPR; proof {..} __tail`.
+    Executable meaning is unchanged; the proof block keeps its place after the code it followed."""
+    toks = tokenize(out, markers=True)
+    n = len(toks)
+    inside = [False] * n
+    k = 0
+    while k < n:
+        if toks[k].kind in ("ins", "rep"):
+            j = k
+            while j < n and toks[j].kind != "endm": j += 1
+            for q in range(k, min(j + 1, n)): inside[q] = True
+            k = j + 1
+        else:
+            k += 1
+    fixes = []
+    for i, t in enumerate(toks):
+        if t.kind != "ins" or i + 1 >= n or toks[i + 1].text != "proof":
+            continue
+        e = i
+        while e < n and toks[e].kind != "endm": e += 1
+        if e >= n: continue
+        # next exec token after the region
+        q = e + 1
+        while q < n and (inside[q] or toks[q].kind != "tok"): q += 1
+        if q >= n or toks[q].text != "}":
+            continue
+        # previous exec token before the region
+        pidx = i - 1
+        while pidx >= 0 and (inside[pidx] or toks[pidx].kind != "tok"): pidx -= 1
+        if pidx < 0 or toks[pidx].text in (";", "{", "}"):
+            continue
+        # start of the tail expression: after the previous `;` / `{` / `}` at depth 0
+        j = pidx; depth = 0; start = None
+        while j >= 0:
+            x = toks[j]
+            if inside[j] or x.kind != "tok":
+                j -= 1; continue
+            if x.text in (")", "]", "}"):
+                depth += 1
+            elif x.text in ("(", "[", "{"):
+                if depth == 0:
+                    start = j + 1; break
+                depth -= 1
+            elif x.text == ";" and depth == 0:
+                start = j + 1; break
+            j -= 1
+        if start is None: continue
+        while start < n and (inside[start] or toks[start].kind != "tok"): start += 1
+        fixes.append((toks[start].start, toks[pidx].end, toks[e].end))
+        report.append((items[0] if items else Item("", "-", "?", None, 0), "tail-proof-rehomed", "a proof block followed the tail expression after the merge", out[toks[start].start:toks[pidx].end][:120]))
+    for (a, b, c) in sorted(fixes, reverse=True):
+        out = out[:a] + "/*+*/let __tail = /*-*/" + out[a:b] + "/*+*/;/*-*/ " + out[b:c] + " /*+*/__tail/*-*/ " + out[c:]
+    return out
+
+def drop_orphaned_loop_specs(out, report, items):
+    """When the repository turned a loop into something else (`while c { .. }` -> `if c { .. }`), the loop invariant spliced after
+    the loop header has no loop left: drop that spec region (the function's contract stays, and the verifier decides about the new body)."""
+    toks = tokenize(out, markers=True)
+    drops = []
+    n = len(toks)
+    for i, t in enumerate(toks):
+        if t.kind != "ins" or i + 1 >= n or toks[i + 1].text not in ("invariant", "invariant_except_break"):
+            continue
+        j = i - 1; depth = 0; head = None
+        while j >= 0:
+            x = toks[j]
+            if x.kind != "tok":
+                j -= 1; continue
+            if x.text in (")", "]"): depth += 1
+            elif x.text in ("(", "["):
+                if depth == 0: break
+                depth -= 1
+            elif depth == 0 and x.text in ("while", "loop", "for", "if", "else", "match", "{", "}", ";"):
+                head = x.text; break
+            j -= 1
+        if head in ("while", "loop", "for") or head is None:
+            continue
+        k = i + 1
+        while k < n and toks[k].kind != "endm": k += 1
+        if k < n:
+            drops.append((t.start, toks[k].end))
+            report.append((items[0] if items else Item("", "-", "?", None, 0), "loop-spec-dropped", "the loop this invariant belonged to is now `%s`" % head, out[t.start:toks[k].end][:120]))
+    for (a, b) in sorted(drops, reverse=True):
+        out = out[:a] + out[b:]
+    return out
+
+def split_moves(opcodes, at, bt, a, min_len=6, rounds=3):
+    """Find runs of >= min_len tokens that one non-equal opcode removes from the fragment and another one adds to it unchanged,
+    and split the opcodes so that each such run is its own (delete, insert) pair.  Returns (opcodes, {insert index: delete index})."""
+    ops = [list(o) for o in opcodes]
+    pairs = []   # (delete op object, insert op object)
+    for _ in range(rounds):
+        best = None
+        for x, (opx, i1, i2, j1, j2) in enumerate(ops):
+            if opx not in ("delete", "replace") or i2 - i1 < min_len: continue
+            for y, (opy, k1, k2, l1, l2) in enumerate(ops):
+                if y == x or opy not in ("insert", "replace") or l2 - l1 < min_len: continue
+                if any(ops[x] is d_ or ops[y] is i_ for (d_, i_) in pairs): continue
+                m = difflib.SequenceMatcher(None, at[i1:i2], bt[l1:l2], autojunk=False).find_longest_match(0, i2 - i1, 0, l2 - l1)
+                if m.size >= min_len and (best is None or m.size > best[0]):
+                    best = (m.size, x, y, i1 + m.a, l1 + m.b)
+        if best is None: break
+        size, x, y, ca, cb = best
+        # no rewritten region may be cut by the moved run
+        regs = set(t.region for t in a[ca:ca + size] if t.region is not None)
+        if any(sum(1 for t in a[ca:ca + size] if t.region == rg) != sum(1 for t in a if t.region == rg) for rg in regs):
+            break
+        opx, i1, i2, j1, j2 = ops[x]
+        opy, k1, k2, l1, l2 = ops[y]
+        # split x: [i1,ca) stays as it was (with x's own replacement, if any), [ca,ca+size) is the move source, [ca+size,i2) a plain delete
+        src = ["delete", ca, ca + size, j2, j2]
+        newx = []
+        if ca > i1 or j2 > j1: newx.append([opx if j2 > j1 and ca > i1 else ("delete" if ca > i1 else "insert"), i1, ca, j1, j2])
+        newx.append(src)
+        if ca + size < i2: newx.append(["delete", ca + size, i2, j2, j2])
+        # split y: the inserted run [cb,cb+size) is the move destination
+        dst = ["insert", k2, k2, cb, cb + size]
+        newy = []
+        if cb > l1 or k2 > k1: newy.append([opy if k2 > k1 and cb > l1 else ("insert" if cb > l1 else "delete"), k1, k2, l1, cb])
+        newy.append(dst)
+        if cb + size < l2: newy.append(["insert", k2, k2, cb + size, l2])
+        objx, objy = ops[x], ops[y]
+        out = []
+        for o in ops:
+            if o is objx: out += newx
+            elif o is objy: out += newy
+            else: out.append(o)
+        ops = out
+        pairs.append((src, dst))
+    links = {}
+    for (src, dst) in pairs:
+        xi = next(k for k, o in enumerate(ops) if o is dst); xd = next(k for k, o in enumerate(ops) if o is src)
+        links[xi] = xd
+    return [tuple(o) for o in ops], links
 
 def retarget_closing_braces(opcodes, at):
     """A deleted `}` inside a run `} } }` is only determined up to position.  When the repository removed a block's opening brace
